@@ -158,7 +158,7 @@ class Prop:
                         continue
                     bestk = min(ref.key(net, p) for p in cands)
                     g = got_rs.get(net, ())
-                    ok = [p for p in cands if ref.key(net, p) == bestk and (p['src'][0], p['attr']['tok']) == g]
+                    ok = [p for p in cands if ref.key(net, p) == bestk and (p['src'][0], R.orig_tok(p['attr'])) == g]
                     if not ok:
                         return 'step %d: RS-local view of peer %d for prefix %d shows %s, which is not a best path among the other route-server clients' % (k, a, net, g)
             for net in locd:
@@ -173,21 +173,24 @@ class Prop:
                     want = {x[0]: [(p[0], p[1], p[2]) for p in x[5]][:m] for x in loc}
                     if got != want:
                         return 'step %d: collect_loc_rib_paths_limited(%d) gives %s, the first %d paths of the Loc-RIB are %s' % (k, m, got, m, want)
-                addr_of = {}
+                addr_of = {}; orig_of = {}
                 for o2 in c['ops']:
                     if o2[0] in ('ins', 'rem'):
                         addr_of[o2[1][0]] = o2[1][1]
+                    if o2[0] == 'ins':
+                        orig_of[o2[5]['tok']] = R.orig_tok(o2[5])
                 for a, per in adj:
                     if sorted(r[0] for r in per) != sorted(seen):
                         return 'step %d: Adj-RIB-In view of peer %d lists prefixes %s, the RIB holds %s' % (k, a, sorted(r[0] for r in per), sorted(seen))
                     for net, adj_f, adj_t, soft_f, soft_t in per:
                         mine = [e for e in seen[net] if addr_of.get(e[1]) == a]
-                        if [list(e[:4]) for e in mine] != adj_t:
+                        view = lambda e: [e[0], e[1], orig_of.get(e[2], e[2]), e[3]]      # the view shows the attributes as received
+                        if [view(e) for e in mine] != adj_t:
                             return 'step %d: Adj-RIB-In view (with filtered) of peer %d for prefix %d is %s, its paths in the RIB are %s' % (k, a, net, adj_t, mine)
-                        if [list(e[:4]) for e in mine if not e[3]] != adj_f:
+                        if [view(e) for e in mine if not e[3]] != adj_f:
                             return 'step %d: Adj-RIB-In view of peer %d for prefix %d is %s, its accepted paths in the RIB are %s' % (k, a, net, adj_f, [e for e in mine if not e[3]])
                         nh_of = {(p['src'][0], p['rpid']): p['nh'] for p in ref.paths.get(net, {}).values()}
-                        want_t = [[e[0], e[1], [] if nh_of.get((e[1], e[0])) is None else [nh_of[(e[1], e[0])]]] for e in mine]
+                        want_t = [[e[0], e[1], [] if nh_of.get((e[1], e[0])) is None else [nh_of[(e[1], e[0])]], orig_of.get(e[2], e[2])] for e in mine]
                         want_f = [w for w, e in zip(want_t, mine) if not e[4]]
                         if soft_t != want_t or soft_f != want_f:
                             return 'step %d: soft-reset input of peer %d for prefix %d is %s / %s, expected %s / %s' % (k, a, net, soft_f, soft_t, want_f, want_t)
